@@ -57,4 +57,9 @@ int main(int argc, char *argv[]) {
     }
     std::cout << *cur << '\n';
   }
+  std::cout.flush();
+  if (!std::cout) {
+    std::cerr << "Error writing to stdout\n";
+    return 1;
+  }
 }
